@@ -36,6 +36,7 @@ import M4riProofs.MathlibSpec
 import M4riProofs.TrsmRec
 import M4riProofs.Top
 import M4riProofs.GenTie
+import M4riProofs.GenTieAlg
 namespace M4ri.Props.C03
 open M4ri M4ri.BMat
 
@@ -143,5 +144,9 @@ theorem pluq_end_to_end (L1 L2 L3 : Nat) {A : BMat} (hA : A.WF) :
     check (M4ri/Gen/CFuns.lean); these theorems prove them equal to the hand-written model definitions the theorems
     above are about, for all arguments of the C domain -/
 #check @M4ri.GenTie.pleSplit_eq
+
+
+/-! ### tie to the C text (generated by vlib/ctrans.py on every check, proved equal to the model in GenTieAlg.lean) -/
+#check @M4ri.GenTieAlg.mzdFindPivot_eq
 
 end M4ri.Props.C03
